@@ -518,7 +518,8 @@ func c06VsDDL(c *ev.Ctx, dp *dump.Dump, e *ddlEntry, sf *specdec.File, wit func(
 				for i, dv := range nums {
 					got := math.Float64frombits(o.Read[i])
 					if !valueMatches(got, dv.Text, t) {
-						c.Violation("values:"+tag+":"+store, wit(p, map[string]any{"ddl": e.name, "index": i, "reader": got, "reference": dv.Text}))
+						// the key names the file and the dataset: wrong values anywhere else are another violation
+						c.Violation("values:"+tag+":"+store+":"+e.fileName+":"+p, wit(p, map[string]any{"ddl": e.name, "index": i, "reader": got, "reference": dv.Text}))
 						break
 					}
 				}
@@ -693,7 +694,7 @@ func c06Attrs(c *ev.Ctx, o *dump.Obj, n *ddl.Node, e *ddlEntry, sf *specdec.File
 					bad = !valueMatches(a.Nums[i], dv.Text, t)
 				}
 				if bad {
-					c.Violation("attr-value:"+tag, wit(o.Path+"@"+an.Name, map[string]any{"ddl": e.name, "index": i, "reader": a.Value, "reference": dv.Text}))
+					c.Violation("attr-value:"+tag+":"+e.fileName+":"+o.Path+"@"+an.Name, wit(o.Path+"@"+an.Name, map[string]any{"ddl": e.name, "index": i, "reader": a.Value, "reference": dv.Text}))
 					break
 				}
 			}
